@@ -13,6 +13,7 @@ import (
 	"errors"
 	"fmt"
 	"hash/fnv"
+	"runtime"
 	"sync"
 	"time"
 
@@ -60,7 +61,18 @@ func (c *simCaller) Call(ctx context.Context, nodeID uint64, serviceID uint8, pa
 	if ctx != nil {
 		done = ctx.Done()
 	}
-	d := w.sw.ParkCtx(done, key, info, -1)
+	d := rpcDeliver
+	if serviceID == clusternet.RPCChannelPullHint || serviceID == clusternet.RPCChannelPullHintBatch || serviceID == clusternet.RPCChannelNotify {
+		// Best-effort wakeups are fanned out by the leader one target after the
+		// other in Go map order; parking them would let that order reach the
+		// schedule. They are delivered at once (or refused while a side is
+		// isolated); followers still have their own poll timers.
+		if w.isolatedEither(c.from, to) {
+			return nil, errSimDropped
+		}
+	} else {
+		d = w.sw.ParkCtx(done, key, info, -1)
+	}
 	switch d {
 	case -1:
 		return nil, ctx.Err()
@@ -150,6 +162,7 @@ func newWorld(r *simkit.Run, n int, mkStore func(id ch.NodeID) (channelstore.Fac
 		svc, err := channels.NewService(channels.Config{
 			LocalNode:    id,
 			ReactorCount: 1,
+			MailboxSize:  64, // default 1024 per priority queue and per pool queue costs ~0.2 s of allocation per node
 			// enough workers that parked RPCs never saturate the ants pools
 			StoreAppendWorkers: 4, StoreApplyWorkers: 4, RPCWorkers: 16,
 			AppendBatchMaxWait: time.Millisecond,
@@ -168,8 +181,24 @@ func newWorld(r *simkit.Run, n int, mkStore func(id ch.NodeID) (channelstore.Fac
 	return w, nil
 }
 
+func (w *cworld) isolatedEither(a, b ch.NodeID) bool {
+	w.mu.Lock()
+	defer w.mu.Unlock()
+	na, nb := w.nodes[a], w.nodes[b]
+	return (na != nil && na.isolated) || (nb != nil && nb.isolated)
+}
+
 func (w *cworld) close() {
+	// ants.ReleaseTimeout spins (without blocking) until the pool's helper
+	// goroutines have exited; with one P that costs a 10 ms preemption per
+	// pool (21 pools). Teardown happens after the last trace line, so it may
+	// run on two Ps.
+	if prev := runtime.GOMAXPROCS(0); prev < 2 {
+		runtime.GOMAXPROCS(2)
+		defer runtime.GOMAXPROCS(prev)
+	}
 	w.sw.CloseAll(rpcClosed)
+	simkit.Wait()
 	for _, id := range w.ids {
 		_ = w.nodes[id].svc.Close()
 	}
